@@ -83,5 +83,41 @@ theorem M2M.readers_transposed {s : M2M α} (w : s.WF) (k v : α) :
       rw [M2M.get_eq_getSet] at ha
       exact ⟨a, (mem_iteritems wf.gd v a).2 ((w.transpose a v).1 ha)⟩
 
+/-! what the constructors and `update(pairs)` hold -/
+
+/-- `update(pairs)` / `update(mapping)`: the union with the pairs given -/
+theorem M2M.updatePairs_data (s : M2M α) (ps : List (α × α)) (a x : α) :
+    x ∈ getSet a (s.updatePairs ps).data ↔ x ∈ getSet a s.data ∨ (a, x) ∈ ps := by
+  unfold M2M.updatePairs
+  induction ps generalizing s with
+  | nil => simp
+  | cons p r ih =>
+    simp only [List.foldl_cons]
+    rw [ih]
+    show x ∈ getSet a (addTo p.1 p.2 s.data) ∨ _ ↔ _
+    rw [mem_getSet_addTo]
+    obtain ⟨k, v⟩ := p
+    simp only [List.mem_cons, Prod.mk.injEq]
+    constructor
+    · rintro ((h | h) | h)
+      · exact Or.inl h
+      · exact Or.inr (Or.inl h)
+      · exact Or.inr (Or.inr h)
+    · rintro (h | h | h)
+      · exact Or.inl (Or.inl h)
+      · exact Or.inl (Or.inr h)
+      · exact Or.inr h
+
+/-- `ManyToMany(pairs)` holds exactly the pairs given -/
+theorem M2M.ctor_pairs (ps : List (α × α)) (a x : α) :
+    (a, x) ∈ iteritems (M2M.empty.updatePairs ps : M2M α).data ↔ (a, x) ∈ ps := by
+  rw [mem_iteritems (M2M.WF.empty.updatePairs ps).gd, M2M.updatePairs_data]
+  simp [M2M.empty, getSet]
+
+/-- `ManyToMany(other)` holds exactly the pairs of `other` -/
+theorem M2M.ctor_from {o : M2M α} (wo : o.WF) (a x : α) :
+    (a, x) ∈ iteritems (M2M.empty.updateFrom o).data ↔ (a, x) ∈ iteritems o.data := by
+  rw [mem_iteritems (M2M.WF.empty.updateFrom wo).gd, mem_iteritems wo.gd, M2M.updateFrom_data wo]
+  simp [M2M.empty, getSet]
 end readers
 end C17
